@@ -178,19 +178,21 @@ def main():
     ck = Check("C07")
     if ck.replay:
         body = json.load(open(os.path.join(VERIF, ck.replay) if not os.path.isabs(ck.replay) else ck.replay))
-        run_case(ck, body["case"])
+        ck.guard(run_case, ck, body["case"])
         ck.finish(rule="replay of one recorded case (fresh random draws)")
     ck.lean_obligations("CvProps.C07", THEOREMS)
     for case in json.load(open(os.path.join(VERIF, "harness", "corpus", "C07.json"))):
-        run_case(ck, case)
+        ck.guard(run_case, ck, case)
         ck.count("corpus")
     for _ in range(260 if not ck.thorough else 6000):
         if ck.enough():
             break
-        run_case(ck, gen_case(ck, 600 if not ck.thorough else 6000))
+        ck.guard(run_case, ck, gen_case(ck, 600 if not ck.thorough else 6000))
     ck.assumptions = ["torch.randint / torch.randperm results are recorded and replayed by the model; the theorems hold for all draws"]
     ck.finish(rule="generated definitions x modes classic / bfs / nbt (history depth 0-3) x widths 1-40 (or wide) x lengths 1-40 (or long) x start default / list / ndarray / tensor x encodings; judged by exact-length reachability sets and Spec distances")
 
 
 if __name__ == "__main__":
-    main()
+    from cv.core import run_main
+
+    run_main(main)
